@@ -71,11 +71,11 @@ METHODS = {
 ''',
     "token": '''
     def next_token(self, context, token):
-        _hit("{pid}", "token", (str(token), context.in_fix_mode, id(context)))
+        _hit("{pid}", "token", (str(token), context.in_fix_mode, id(context), context.scan_file))
 ''',
     "line": '''
     def next_line(self, context, line):
-        _hit("{pid}", "line", (context.line_number, line, context.in_fix_mode, id(context)))
+        _hit("{pid}", "line", (context.line_number, line, context.in_fix_mode, id(context), context.scan_file))
         if "PLUGINBOOM" in line:
             raise Exception("verif plugin boom")
         if "{trig}" and "{trig}" in line:
@@ -87,7 +87,7 @@ METHODS = {
 ''',
     "done": '''
     def completed_file(self, context):
-        _hit("{pid}", "done", (context.line_number, context.in_fix_mode, id(context)))
+        _hit("{pid}", "done", (context.line_number, context.in_fix_mode, id(context), context.scan_file))
 ''',
 }
 
